@@ -168,22 +168,22 @@ def run_cfg(ctx, p, cfg):
 
 
 def validated(g, block, fmt):
-    """Is `block` reachable only through the success edge of a strftime validation of fmt?"""
+    """Is `block` reachable only through the success edge of a *trial formatting* with fmt?
+    Parsing the format (StrftimeItems ... Item::Error) is not enough: chrono parses items such as `%#z` that exist only for
+    parsing, and DelayedFormat's Display then fails at encode time, where io::Write::write_fmt panics.  The only validation
+    that covers what Display can reject is to run Display once into a fmt::Write sink and test the result."""
+    weaker = None
     for sb, si, al in g.conditions(block):
         d = strip(si.discr)
         labs = {si.label(v) for v, _ in al}
-        # (a) Iterator::any(StrftimeItems::new(&fmt), |i| matches!(i, Item::Error)) == false
-        if d[0] == "call" and d[1] in ("core::iter::traits::iterator::Iterator::any",) and labs == {False}:
-            src = [x for x in walk(d[2][0]) if x[0] == "call" and x[1].startswith("chrono::format::strftime::StrftimeItems") and x[1].rsplit("::", 1)[-1] in ("new", "new_with_locale")]
-            if src and deep_strip(src[0][2][0]) == fmt:
-                return True, "guarded by StrftimeItems::new(fmt).any(Item::Error) == false"
-        if d[0] == "call" and d[1] == "core::iter::traits::iterator::Iterator::all" and labs == {True}:
-            src = [x for x in walk(d[2][0]) if x[0] == "call" and x[1].startswith("chrono::format::strftime::StrftimeItems")]
-            if src and deep_strip(src[0][2][0]) == fmt:
-                return True, "guarded by StrftimeItems::new(fmt).all(!= Item::Error)"
-        # (b) StrftimeItems::new(fmt).parse() / parse_to_owned() is Ok
-        if d[0] == "discr" and labs <= {"Ok", "Continue"}:
-            src = [x for x in walk(d) if x[0] == "call" and x[1].startswith("chrono::format::strftime::StrftimeItems") and x[1].rsplit("::", 1)[-1] in ("parse", "parse_to_owned")]
-            if src and any(deep_strip(y) == fmt for x in src for y in walk(x)):
-                return True, "guarded by StrftimeItems::parse() == Ok"
-    return False, "no dominating strftime validation of %s" % show(fmt, 4)
+        trial = [x for x in walk(d) if x[0] == "call" and x[1] == "core::fmt::Write::write_fmt"]
+        fmts = [y for x in trial for y in walk(x) if y[0] == "call" and y[1].endswith("::format") and "chrono" in y[1] and len(y[2]) >= 2 and deep_strip(y[2][1]) == fmt]
+        if trial and fmts:
+            good = (d[0] == "discr" and labs and labs <= {"Ok", "Continue"}) or \
+                   (d[0] == "call" and d[1].rsplit("::", 1)[-1] == "is_err" and labs == {False}) or \
+                   (d[0] == "call" and d[1].rsplit("::", 1)[-1] == "is_ok" and labs == {True})
+            if good:
+                return True, "guarded by a successful trial formatting (fmt::Write::write_fmt of DateTime::format(fmt))"
+        if any(x[0] == "call" and x[1].startswith("chrono::format::strftime::StrftimeItems") for x in walk(d)):
+            weaker = "only the parse of the format is checked (StrftimeItems); parse-only items such as %#z pass it and fail in Display"
+    return False, weaker or ("no dominating validation of %s" % show(fmt, 4))
